@@ -53,6 +53,8 @@ def main(argv):
     ctx = Ctx(spec["prop"], spec["tier"], spec["seed"], spec["shard"], spec["nshards"],
               repo, spec["scratch"], params=params, hashseed=os.environ.get("PYTHONHASHSEED"))
     ctx.harvest = harvest
+    import locale
+    ctx.count("process-encoding-" + locale.getpreferredencoding(False).lower())
 
     mod = importlib.import_module("checks." + spec["prop"].lower())
 
